@@ -38,6 +38,12 @@ pub fn payloads() -> Vec<(&'static str, Vec<u8>)> {
         // unterminated text that holds the (unsalted) beginning of a divider line
         ("divider-prefix-no-eol", b"see ~~~~~~~~EXECDIVIDER::x".to_vec()),
         ("ansi-no-eol", b"\x1b[1mbold\x1b[0m".to_vec()),
+        // more escape sequences: cursor movement with a private parameter, a window title (OSC) ended by BEL and by ESC \,
+        // and the beginning of an OSC that never ends, followed by more lines; text with TAB and BEL next to a colour
+        ("ansi-csi-private", b"a\x1b[?25lb\x1b[2Kc\n".to_vec()),
+        ("ansi-osc", b"\x1b]0;title\x07x\x1b]8;;http://e\x1b\\y\n".to_vec()),
+        ("ansi-osc-unterminated", b"a\n\x1b]b\nc\nd\n".to_vec()),
+        ("ansi-next-to-controls", b"t\tb\x07\x1b[31mred\x1b[0m\0\xff\n".to_vec()),
     ]
 }
 
@@ -107,20 +113,39 @@ fn stream_cfg(v: u8) -> Option<OutputStreamControl> {
 }
 
 fn strip_ansi_ref(b: &[u8]) -> Vec<u8> {
-    // reference for the one ANSI shape in the alphabet: ESC [ params final
+    // reference written from ECMA-48: CSI = ESC [ parameters (0x30-0x3f)* intermediates (0x20-0x2f)* final (0x40-0x7e);
+    // OSC = ESC ] text terminated by BEL or ESC \; anything that does not complete stays as it is
     let mut out = vec![];
     let mut i = 0;
     while i < b.len() {
         if b[i] == 0x1b && b.get(i + 1) == Some(&b'[') {
             let mut j = i + 2;
-            while j < b.len() && !(0x40..=0x7e).contains(&b[j]) {
+            while j < b.len() && (0x30..=0x3f).contains(&b[j]) {
                 j += 1;
             }
-            i = j + 1;
-        } else {
-            out.push(b[i]);
-            i += 1;
+            while j < b.len() && (0x20..=0x2f).contains(&b[j]) {
+                j += 1;
+            }
+            if j < b.len() && (0x40..=0x7e).contains(&b[j]) {
+                i = j + 1;
+                continue;
+            }
+        } else if b[i] == 0x1b && b.get(i + 1) == Some(&b']') {
+            let mut j = i + 2;
+            while j < b.len() && b[j] != 0x07 && b[j] != 0x1b {
+                j += 1;
+            }
+            if j < b.len() && b[j] == 0x07 {
+                i = j + 1;
+                continue;
+            }
+            if j + 1 < b.len() && b[j] == 0x1b && b[j + 1] == b'\\' {
+                i = j + 2;
+                continue;
+            }
         }
+        out.push(b[i]);
+        i += 1;
     }
     out
 }
@@ -211,7 +236,7 @@ impl Engine for VcIo {
                                     // settings only matter for payloads they can transform; keep the full product for those
                                     let name = payloads()[payload].0;
                                     let crlfish = name.contains("cr");
-                                    let ansi = name == "ansi";
+                                    let ansi = name.starts_with("ansi");
                                     if (keep_crlf && !crlfish) || (strip_ansi && !ansi && !crlfish) {
                                         continue;
                                     }
